@@ -75,6 +75,10 @@ def entry_state(ex, con, fs):
         v = Z.fresh_val('arg_' + args.kwarg.arg)
         env[args.kwarg.arg] = v
         facts.append(z3.And(Z.is_ref(v), Z.addr(v) >= 0, Z.addr(v) < h0.alloc, h0.kind_of(Z.addr(v)) == Z.K_DICT))
+    for gname in getattr(con, 'global_dicts', []):
+        gv = Z.fresh_val('glob_' + gname)
+        env[gname] = gv
+        facts.append(z3.And(Z.is_ref(gv), Z.addr(gv) >= 0, Z.addr(gv) < h0.alloc, h0.kind_of(Z.addr(gv)) == Z.K_DICT, h0.size_of(Z.addr(gv)) >= 0))
     st = State(pc=[], env=env, heap=h0)
     if params and params[0] == 'self' and not fs.is_static:
         ex.static_cls['self'] = con.self_class
